@@ -426,6 +426,39 @@ def run_case(case, history="plain"):
                     out["notes"].append("uncached_generator_memoised")
             except Exception as e:
                 out["notes"].append("uncached_own_raised:" + type(e).__name__)
+    if pattern == "direct":
+        # parameter values no name can be derived for (two lambdas): whatever such calls do - refuse, or return - and however
+        # often they are repeated, no two different modules may come back under one name
+        import typing
+
+        @h.paramclass
+        class AnyP:
+            f = h.Param(dtype=typing.Any, desc="anything")
+
+        def anybody(params: AnyP) -> h.Module:
+            m = h.Module()
+            m.add(h.Signal(name="x"))
+            return m
+        anybody.__name__ = "AnyBody"
+        A = h.generator(anybody)
+        f1, f2 = (lambda: 1), (lambda: 2)
+        got = []
+        for f in (f1, f1, f2, f2):
+            try:
+                got.append(A(f=f))
+            except Exception:
+                got.append(None)
+        mods = [g for g in got if g is not None]
+        for i in range(len(mods)):
+            for j in range(i + 1, len(mods)):
+                if mods[i] is not mods[j] and mods[i].name == mods[j].name:
+                    out["fails"].append(("name_collision:unnameable_params", "calls with two different unnameable parameter values (repeated after a refusal) "
+                                         "returned two Modules both named %r (outcomes of the four calls: %s)" % (mods[i].name, [None if g is None else g.name for g in got])))
+                    break
+            else:
+                continue
+            break
+        out["notes"].append("unnameable_calls:" + "".join("r" if g is None else "m" for g in got))
     out["equal"] = equal
     out["rendered_equal"] = render(case["vals1"]) == render(case["vals2"])
     return out
